@@ -40,6 +40,20 @@ class ObligationResult:
         return {k: getattr(self, k) for k in self.__slots__}
 
 
+def _guarded_check(s, ms):
+    """solver.check() with a watchdog: some z3 tactics do not poll their timeout; interrupt gives `unknown`."""
+    import threading
+    wd = threading.Timer(ms / 1000.0 + 2.0, s.ctx.interrupt)
+    wd.daemon = True
+    wd.start()
+    try:
+        return s.check()
+    except z3.Z3Exception:
+        return z3.unknown
+    finally:
+        wd.cancel()
+
+
 class VC:
     def __init__(self, contract_name, prop, tier='quick', seed=0):
         self.contract = contract_name
@@ -181,6 +195,11 @@ class VC:
         """Decide hyps /\\ neg with a small portfolio: z3 on the cone of influence of the goal (dropping
         hypotheses is sound for `unsat`; `sat` is only believed on the full set), z3 on the full set with a
         short budget, cvc5 on the SMT-LIB text, z3 again with the full budget."""
+        try:
+            if z3.is_false(z3.simplify(neg)):
+                return z3.unsat, 'z3-simplify', None, None
+        except z3.Z3Exception:
+            pass
         sl = slice_hyps(hyps, neg)
         full_is_slice = len(sl) == len(hyps)
         reason = None
@@ -194,7 +213,8 @@ class VC:
             for h in hs:
                 s.add(h)
             s.add(neg)
-            return s, s.check()
+            # some z3 tactics do not poll the timeout: interrupt from a watchdog thread (result: unknown)
+            return s, _guarded_check(s, ms)
 
         s, r = z3_try(sl, quick_ms)
         if r == z3.unsat:
@@ -215,7 +235,7 @@ class VC:
             for h in sl:
                 s2.add(h)
             s2.add(neg)
-            r2 = s2.check()
+            r2 = _guarded_check(s2, min(1500, self.timeout_ms))
             if r2 == z3.unsat:
                 return r2, 'z3:qfnra-nlsat', None, None
             if r2 == z3.sat and full_is_slice:
@@ -250,7 +270,7 @@ class VC:
                 for h in hyps:
                     s2.add(h)
                 s2.add(neg)
-                r2 = s2.check()
+                r2 = _guarded_check(s2, self.timeout_ms)
                 if r2 == z3.unsat:
                     return r2, 'z3:' + tactic, None, None
                 if r2 == z3.sat:
